@@ -44,6 +44,7 @@ import (
 	"log"
 	"net"
 	"os"
+	"strings"
 	"sync"
 	"sync/atomic"
 	"time"
@@ -528,14 +529,14 @@ func (server *SugarDB) handleConnection(conn net.Conn) {
 			var netErr net.Error
 			if !errors.As(err, &netErr) {
 				// Malformed frame: the stream cannot be resynchronised, report and close.
-				_, _ = w.Write([]byte(fmt.Sprintf("-Error %s\r\n", err.Error())))
+				_, _ = w.Write(errorReply(err))
 			}
 			break
 		}
 
 		message, err := value.MarshalRESP()
 		if err != nil {
-			_, _ = w.Write([]byte(fmt.Sprintf("-Error %s\r\n", err.Error())))
+			_, _ = w.Write(errorReply(err))
 			break
 		}
 
@@ -545,7 +546,7 @@ func (server *SugarDB) handleConnection(conn net.Conn) {
 		}
 		if err != nil {
 			log.Println(err)
-			if _, err = w.Write([]byte(fmt.Sprintf("-Error %s\r\n", err.Error()))); err != nil {
+			if _, err = w.Write(errorReply(err)); err != nil {
 				log.Println(err)
 			}
 			continue
@@ -581,6 +582,13 @@ func (server *SugarDB) handleConnection(conn net.Conn) {
 			startIndex += chunkSize
 		}
 	}
+}
+
+// errorReply renders an error as one RESP error line. CR and LF in the message (it may quote bytes sent
+// by the client) are replaced by spaces so that the reply stays a single frame.
+func errorReply(err error) []byte {
+	msg := strings.NewReplacer("\r", " ", "\n", " ").Replace(err.Error())
+	return []byte(fmt.Sprintf("-Error %s\r\n", msg))
 }
 
 // handleCommandRecover runs handleCommand for a TCP connection and turns a panic in a handler into an
